@@ -13,6 +13,13 @@ import (
 // order: every `if` condition, every assignment to a field (x.F = …), every return of a value, and every keeper call that
 // reads or writes accounts or moves coins.  Props/C19 pins each skeleton with a tie theorem next to the statement of the
 // model function that mirrors it; any edit of a guard, of an updated field or of the order of the moves breaks the tie.
+var skeletonCalls = []string{"k.AddCoins", "k.SubtractCoins", "k.SendCoins", "k.ak.SetAccount", "k.ak.GetAccount", "k.ak.NewAccountWithAddress", "vesting.NewManualVestingAccount", "mva.BaseVestingAccount.TrackDelegation",
+	"s.ak.GetAccount", "s.ak.NewAccountWithAddress", "s.ak.SetAccount", "s.bk.SetBalance", "s.bk.GetBalance", "s.bk.BlockedAddr", "s.store.Set", "s.store.Delete", "s.SetAddressMeta",
+	"k.Tx", "k.cvmk.Send", "k.BaseKeeper.SendCoins", "k.BaseKeeper.InputOutputCoins", "k.GetCode", "k.bk.SpendableCoins"}
+
+// skeletonAllReturns: also record returns of several values (used where the point is WHICH error is handed on)
+var skeletonAllReturns = false
+
 func skeleton(fc *fileCache, rel, fn string, recvType string) []string {
 	f := fc.get(rel)
 	if f == nil {
@@ -49,6 +56,13 @@ func skeleton(fc *fileCache, rel, fn string, recvType string) []string {
 				}
 			}
 		case *ast.ReturnStmt:
+			if len(t.Results) > 1 && skeletonAllReturns {
+				var rs []string
+				for _, r := range t.Results {
+					rs = append(rs, src(fc.fset, r))
+				}
+				out = append(out, "return "+strings.Join(rs, ", "))
+			}
 			if len(t.Results) == 1 {
 				r := src(fc.fset, t.Results[0])
 				if r != "nil" && r != "err" && !strings.Contains(r, "Wrap") && !strings.Contains(r, "Errorf") {
@@ -57,7 +71,7 @@ func skeleton(fc *fileCache, rel, fn string, recvType string) []string {
 			}
 		case *ast.CallExpr:
 			fnm := src(fc.fset, t.Fun)
-			for _, p := range []string{"k.AddCoins", "k.SubtractCoins", "k.SendCoins", "k.ak.SetAccount", "k.ak.GetAccount", "k.ak.NewAccountWithAddress", "vesting.NewManualVestingAccount", "mva.BaseVestingAccount.TrackDelegation"} {
+			for _, p := range skeletonCalls {
 				if fnm == p {
 					args := []string{}
 					for _, a := range t.Args {
@@ -87,4 +101,21 @@ func genVesting(fc *fileCache) {
 	emit("vestingCoins", "x/auth/types/vesting_account.go", "GetVestingCoins", "ManualVestingAccount", "")
 	emit("trackDelegation", "x/auth/types/vesting_account.go", "TrackDelegation", "ManualVestingAccount", "")
 	g.write("Vesting", nil)
+
+	// the bridge between the VM's account cache and the bank (C01, C18): what is written back, and that errors are handed on
+	h := &genFile{ns: "CvmBridge"}
+	emit2 := func(name, rel, fn, recv, what string) {
+		sk := skeleton(fc, rel, fn, recv)
+		h.fact(name, "List String", strList(sk), rel+" "+fn+": "+what)
+		h.fact(name+"_found", "Bool", boolStr(len(sk) > 0), "")
+		h.found = append(h.found, name+"_found")
+	}
+	emit2("updateAccount", "x/cvm/keeper/state.go", "UpdateAccount", "State", "write-back of one account of the VM's cache")
+	emit2("removeAccount", "x/cvm/keeper/state.go", "RemoveAccount", "State", "SELFDESTRUCT")
+	skeletonAllReturns = true
+	emit2("call", "x/cvm/keeper/keeper.go", "Call", "Keeper", "MsgCall: the execution error is returned")
+	skeletonAllReturns = false
+	emit2("bankSend", "x/bank/keeper/keeper.go", "SendCoins", "Keeper", "a send to an address with code is routed through the VM")
+	emit2("bankMultiSend", "x/bank/keeper/keeper.go", "InputOutputCoins", "Keeper", "a multi-send to an address with code is refused")
+	h.write("CvmBridge", nil)
 }
